@@ -31,4 +31,17 @@ MUTANTS = [
  {"id": "probe-digit-run-unicode-numeric", "kind": "break", "edits": [(D, "re:slice\\.chars\\(\\)\\.take_while\\(char::is_ascii_digit\\)\\.collect\\(\\);", "slice.chars().take_while(|c| c.is_numeric()).collect();", 2)], "expect": ["D1-"]},
  {"id": "probe-digit-run-hexdigits", "kind": "break", "edits": [(D, "re:slice\\.chars\\(\\)\\.take_while\\(char::is_ascii_digit\\)\\.collect\\(\\);", "slice.chars().take_while(char::is_ascii_hexdigit).collect();", 2)], "expect": ["D1-"]},
  {"id": "probe-dot-pushes-one", "kind": "break", "edits": [(D, "if c == '.' || c == '_' {\n                version.push(0);", "if c == '.' || c == '_' {\n                version.push(1);")], "expect": ["D1-TOK-TABLE"]},
+ # the table-driven spelling of the modifier arms (benign/dewey-1) and its one-line breakages
+ {"id": "table-form-benign", "kind": "benign", "edits": [{"patch": "/verif/benign/dewey-1/patch.diff"}]},
+ {"id": "table-form-wrong-weight", "kind": "break", "edits": [{"patch": "/verif/benign/dewey-1/patch.diff"}, (D, '("rc", -1)', '("rc", -2)')], "expect": ["D1-TOK-TABLE@dewey::DeweyVersion::new#literal=rc"]},
+ {"id": "table-form-missing-entry", "kind": "break", "edits": [{"patch": "/verif/benign/dewey-1/patch.diff"}, (D, 'const MODIFIERS: [(&str, i64); 5] =\n    [("alpha", -3), ("beta", -2), ("rc", -1), ("pre", -1), ("pl", 0)];', 'const MODIFIERS: [(&str, i64); 4] =\n    [("alpha", -3), ("beta", -2), ("rc", -1), ("pl", 0)];')], "expect": ["D1-TOK-TABLE@dewey::DeweyVersion::new#literal=pre"]},
+ {"id": "table-form-extra-entry", "kind": "break", "edits": [{"patch": "/verif/benign/dewey-1/patch.diff"}, (D, 'const MODIFIERS: [(&str, i64); 5] =\n    [("alpha", -3), ("beta", -2), ("rc", -1), ("pre", -1), ("pl", 0)];', 'const MODIFIERS: [(&str, i64); 6] =\n    [("alpha", -3), ("beta", -2), ("rc", -1), ("pre", -1), ("pl", 0), ("dev", -4)];')], "expect": ["D1-TOK-TABLE@dewey::DeweyVersion::new#no-extra-literals"]},
+ {"id": "table-form-advance-off-by-one", "kind": "break", "edits": [{"patch": "/verif/benign/dewey-1/patch.diff"}, (D, "idx += name.len();", "idx += name.len() + 1;")], "expect": ["D1-TOK-TABLE@dewey::DeweyVersion::new#literal="]},
+ {"id": "table-form-pushes-other-value", "kind": "break", "edits": [{"patch": "/verif/benign/dewey-1/patch.diff"}, (D, "version.push(*weight);", "version.push(*weight - 1);")], "expect": ["D1-TOK-TABLE@dewey::DeweyVersion::new#literal="]},
+ {"id": "table-form-case-sensitive", "kind": "break", "edits": [{"patch": "/verif/benign/dewey-1/patch.diff"}, (D, ".find(|(name, _)| starts_with_ignore_ascii_case(slice, name));", ".find(|(name, _)| slice.starts_with(name));")], "expect": ["D2-TOK-CASE"]},
+ {"id": "table-form-shadowed-entry", "kind": "break", "edits": [{"patch": "/verif/benign/dewey-1/patch.diff"}, (D, '("pre", -1), ("pl", 0)]', '("p", 0), ("pre", -1)]'), (D, "[(&str, i64); 5]", "[(&str, i64); 5]")], "expect": ["D1-TOK-TABLE"]},
+ {"id": "table-form-tests-wrong-text", "kind": "break", "edits": [{"patch": "/verif/benign/dewey-1/patch.diff"}, (D, ".find(|(name, _)| starts_with_ignore_ascii_case(slice, name));", ".find(|(name, _)| starts_with_ignore_ascii_case(s, name));")], "expect": ["D1-"]},
+
+ {"id": "probe-literal-tested-on-whole-input", "kind": "break", "edits": [(D, 'if starts_with_ignore_ascii_case(slice, "alpha") {', 'if starts_with_ignore_ascii_case(s, "alpha") {')], "expect": ["D1-"]},
+
 ]
